@@ -392,6 +392,8 @@ def run(ctx):
     r4.expect_min(7)
 
     r5 = rep.rule('C10.5-HUP', 'R-SIBLING', 'HUP sets flagreadasap; the loop calls reread -> regetcontrols, which re-reads both files before freeing, and rebuilds each map with the same colon flag as getcontrols')
+    for inst_, v_ in sorted(qsend.reread_sites(db, rep).items()):
+        r5.check(v_[0], inst_, v_[1], v_[2], v_[3])
     attach(r5, qsend.analyse_main(db, rep), only={'main:HUP-flag-cleared-before-the-controls-are-re-read', 'main:HUP-handled-before-the-wakeup-time-is-computed'})
     gc = prog.fn('getcontrols', 'qmail-send.c')
     rg = prog.fn('regetcontrols', 'qmail-send.c')
